@@ -731,6 +731,8 @@ func genEnvcheckCases(r *rand.Rand, n int, thorough bool) []Case {
 		out = append(out, envcheckCase(r, a, b, []string{"fixed"}))
 	}
 
+	out = append(out, envcheckReentrantCases()...)
+
 	for i := 0; i < n; i++ {
 		if r.Intn(5) == 0 {
 			out = append(out, rawEnvCase(r))
